@@ -363,7 +363,7 @@ mod verif_native {
                     cases += 2;
                 }
             }
-            for (f, bad) in [("data", json!("00")), ("data", json!("0x0")), ("data", json!("0xzz")), ("data", json!("0X00")), ("data", json!(0)), ("data", json!(null)), ("data", json!(" 0x00")),
+            for (f, bad) in [("data", json!("00")), ("data", json!("0x0")), ("data", json!("0xzz")), ("data", json!("0X00")), ("data", json!(0)), ("data", json!(null)), ("data", json!(" 0x00")), ("data", json!("0x0x")), ("data", json!("0x0x00")), ("data", json!("0x0X00")), ("data", json!("0xx")), ("data", json!("0x 00")), ("data", json!("0x00 ")), ("data", json!("0x0g")),
                              ("to", json!(format!("0x{}", "00".repeat(19)))), ("to", json!(format!("0x{}", "00".repeat(21)))), ("to", json!("0x")), ("to", json!(0)), ("to", json!(format!("0x{}", "zz".repeat(20))))] {
                 let mut m = base(kind);
                 m.insert(f.to_string(), bad.clone());
@@ -372,7 +372,7 @@ mod verif_native {
             }
             if kind >= 1 {
                 let a = format!("0x{}", "11".repeat(20));
-                for bad in [json!([[a, [format!("0x{}", "00".repeat(31))]]]), json!([[a, [format!("0x{}", "00".repeat(33))]]]), json!([[a, ["00".repeat(32)]]]), json!([[format!("0x{}", "11".repeat(19)), []]]), json!([[a]]), json!([a]), json!({})] {
+                for bad in [json!([[a, [format!("0x{}", "00".repeat(31))]]]), json!([[a, [format!("0x{}", "00".repeat(33))]]]), json!([[a, ["00".repeat(32)]]]), json!([[a, [format!("0x0x{}", "00".repeat(31))]]]), json!([[a, [format!("0x0x{}", "00".repeat(32))]]]), json!([[format!("0x0x{}", "11".repeat(19)), []]]), json!([[format!("0x{}", "11".repeat(19)), []]]), json!([[a]]), json!([a]), json!({})] {
                     let mut m = base(kind);
                     m.insert("accessList".into(), bad.clone());
                     assert!(serde_json::from_value::<Transaction>(Value::Object(m)).is_err(), "accessList = {bad} accepted");
